@@ -9,20 +9,23 @@ NAMESPACE = 'VL.C04'
 LEAN_MODULES = ['VotelibProofs.Props.C04']
 GEN_MODULES = ['Quota']
 REQUIRED = ['pscCheck_sound_complete', 'unsupported_coalition_trivial', 'droop_at_least_half', 'hare_at_least_half',
-            'majority_first_choice_wins', 'mutual_majority', 'result_shape', 'droop_positive', 'hare_positive', 'full_list_or_refusal',
+            'majority_first_choice_wins', 'mutual_majority', 'gregory_sub_bound', 'hare_sub_bound', 'psc_general',
+            'solidStrict_iff', 'solidStrict_of_no_shared_rank', 'droop_exceeds', 'hare_exceeds', 'psc_droop', 'psc_check_passes', 'result_shape', 'droop_positive', 'hare_positive', 'full_list_or_refusal',
             'no_infinite_loop', 'psc_shared_rank_witness', 'psc_shared_rank_witness_spec']
-UNPROVED = ['psc_droop (general: n seats, k quotas; checked on every outcome with the verified pscCheck instead)']
+UNPROVED = ['psc for coalitions whose supporting ballots contain shared ranks (false of the current code: psc_shared_rank_witness; '
+            'holds on 40 000 generated runs with notes/proposed_fix_C04_shared_rank_transfer.diff applied)']
 REQUIRED_COUNTERS = ['coalition_k_ge_1_and_larger', 'refusal', 'hare', 'shared_ranks', 'majority_winner', 'psc_false',
                      'multi_seat', 'hare_quota', 'impl_outcome_checked', 'fraction_weights']
 RULE = ('ranked profiles over 1-6 candidates, 1-10 ballot types, with and without shared ranks, truncated ballots, weights from a '
         'tie-forcing small set / Fractions / integers up to 10^20, all n_seats 1..#candidates, quota droop / hare, Gregory and '
         'Hare(seed) transfer (Hare with the integer droop quota), TransferableVoteSelector.evaluate; every outcome of the '
         'implementation is additionally passed through the verified PSC checker (psc_check), as are synthetic outcomes that '
-        'violate PSC. Non-trivial = at least two candidates and a result that is not an error; distinct by canonical request.')
+        'violate PSC; thorough tier: exhaustive 3-candidate profiles of 3 ballot types (strict, and with shared ranks), weights 1..3. '
+        'Non-trivial = at least two candidates and a result that is not an error; distinct by canonical request.')
 NOT_VERIFIED = ['random module: Hare draws are recorded and replayed to the model (DrawOK contract checked on both sides)',
                 'iteration order of frozensets (shared ranks) as observed in the harness process',
-                'general Droop proportionality for solid coalitions (n seats, k quotas) is not proved in Lean: it is checked on '
-                'every model and implementation outcome with the verified checker pscCheck']
+                'PSC is proved for coalitions supported by ballots without shared ranks; for profiles with shared ranks it is checked '
+                'on every model and implementation outcome with the verified checker pscCheck (and is false, see known finding)']
 EXHAUSTIVE = {'thorough': False}
 _CACHE = {}
 
@@ -112,7 +115,7 @@ def impl(case):
     quotas = [rec['quota'] for rec in counts if rec.get('quota') is not None]
     q = Fraction(quotas[-1]) if quotas else _quota_used(case, votes)
     psc = None
-    if isinstance(result, list) and q is not None:
+    if isinstance(result, list) and q is not None and q > 0:
         psc = not psc_violations([(b, Fraction(w)) for b, w in case['votes']], q, result)
     _CACHE[key] = draws
     # counters
@@ -128,7 +131,7 @@ def impl(case):
         _tag(case, 'fraction_weights')
     if isinstance(result, dict) and result.get('err') == 'NotImplementedError':
         _tag(case, 'refusal')
-    if q is not None and isinstance(result, list):
+    if q is not None and q > 0 and isinstance(result, list):
         seen = set()
         for b, _ in case['votes']:
             for _, S in prefix_sets(b):
@@ -171,7 +174,9 @@ def oracle(case, obs):
         for c, t in _first_pref_totals(case['votes']).items():
             if t > V / 2 and res != [c]:
                 out.append(('majority_first_choice', f'{c} is first on {t} of {V} ballots, elected {res}'))
-    if obs['quota'] is not None:
+    if obs['quota'] is not None and Fraction(obs['quota']) <= 0:
+        out.append(('quota_not_positive', f'quota {obs["quota"]}'))
+    elif obs['quota'] is not None:
         for S, sup, k, got, shared_inside in psc_violations([(b, Fraction(w)) for b, w in case['votes']], Fraction(obs['quota']), res):
             code = 'psc_coalition_with_shared_rank' if shared_inside else 'psc'
             out.append((code, f'coalition {S} is solidly supported by {sup} = {k} quota(s) of {obs["quota"]}, only {got} elected in {res}'))
@@ -232,7 +237,7 @@ def _checked(case):
     """the case, followed by the verified-checker run on the implementation's own outcome"""
     yield case
     obs = impl(case)
-    if isinstance(obs['result'], list) and obs['quota'] is not None:
+    if isinstance(obs['result'], list) and obs['quota'] is not None and Fraction(obs['quota']) > 0:
         yield {'op': 'psc_check', 'votes': case['votes'], 'q': obs['quota'], 'elected': obs['result'],
                '_tags': ['impl_outcome_checked']}
 
@@ -332,6 +337,28 @@ def generate(rng, tier):
                     yield {'op': 'stv_eval_psc', 'votes': [[b, str(w)] for b, w in zip(combo, ws)], 'n': n, 'form': 'selector',
                            'method': 'gregory', 'seed': 0, 'quota': 'droop', 'accept_equal': True, 'mandatory': False, 'step': -1,
                            '_tags': ['exhaustive']}
+        yield from _exhaustive_shared()
+
+
+def _exhaustive_shared():
+    """3 candidates, every set of 3 ballot types with at least one shared rank, weights 1..3, one seat"""
+    strict = []
+    for p in itertools.permutations(range(3)):
+        for k in (1, 2, 3):
+            if list(p[:k]) not in strict:
+                strict.append(list(p[:k]))
+    shared = [[[0, 1, 2]]]
+    for a, b in ((0, 1), (0, 2), (1, 2)):
+        c = 3 - a - b
+        shared += [[[a, b]], [[a, b], c], [c, [a, b]]]
+    types = strict + shared
+    for combo in itertools.combinations(range(len(types)), 3):
+        if all(i < len(strict) for i in combo):
+            continue
+        for ws in itertools.product([1, 2, 3], repeat=3):
+            yield {'op': 'stv_eval_psc', 'votes': [[types[i], str(w)] for i, w in zip(combo, ws)], 'n': 1, 'form': 'selector',
+                   'method': 'gregory', 'seed': 0, 'quota': 'droop', 'accept_equal': True, 'mandatory': False, 'step': -1,
+                   '_tags': ['exhaustive_shared']}
 
 
 def shrink_candidates(case):
@@ -374,16 +401,15 @@ def describe(case):
 TECHNIQUE = ('Lean 4 proofs about the executable STV model (majority winner, result shape, verified PSC checker) + differential '
              'correspondence of the model with votelib; the verified checker is applied to every outcome')
 LEVEL_TEXT = ('TransferableVoteSelector.evaluate is the Lean model of C03 run to completion (the independently computed weighted-inclusive-'
-              'Gregory count of the statement). Proved for all profiles: a sole first choice on more than half of the votes wins a '
-              'single-seat count (any transferer meeting the specification, Droop/Hare quota, with and without shared ranks elsewhere); '
-              'mutual majority for one seat (a coalition solidly supported by more than half of the votes through ballots without shared '
-              'ranks supplies the winner); '
-              'every returned list has exactly n distinct candidates of the profile; with Gregory transfer, eliminate_step -1 and no '
-              'mandatory quota the evaluation returns such a list or refuses with NotImplementedError whenever 1 <= n <= #candidates '
-              '(no infinite loop, no other outcome); the decidable checker pscCheck is sound and complete for proportionality for solid '
-              'coalitions quantified over all candidate subsets and all k. General Droop-PSC of the count itself is NOT proved: it is '
-              'checked with the verified checker on every model and implementation outcome, and it is false of the current code when '
-              'the supporters of a coalition share a rank inside it (witness theorem, known finding, proposed fix).')
+              'Gregory count of the statement). Proved for all profiles, seat numbers and both transferers (Gregory; Hare under the draw '
+              'contract): proportionality for solid coalitions for every candidate set S and every k (k quotas of solid support by '
+              'ballots whose ranks inside the coalition are not shared => at least min(k,|S|) members of S in every returned list; Droop and Hare quota, '
+              'eliminate_step -1, accept_quota_equal), hence every outcome on a profile without shared ranks passes the verified checker; '
+              'majority first choice and mutual majority for one seat; every returned list has exactly n distinct candidates; with '
+              'Gregory transfer the evaluation returns such a list or refuses with NotImplementedError whenever 1 <= n <= #candidates '
+              '(no infinite loop, no other outcome); the decidable checker pscCheck is sound and complete for the statement quantified '
+              'over all candidate subsets and all k. The property is FALSE of the current code when supporters of a coalition share a '
+              'rank inside it (witness theorem, known finding, proposed fix); the checker is applied to every outcome.')
 LEVEL_NOTE = ('Trusted: Lean kernel + propext/Classical.choice/Quot.sound; translate.py for the quota functions; the correspondence '
               'harness (<= 6 candidates, <= 10 ballot types); random module replaced by recorded draws; frozenset iteration order. '
-              'Unproved: general PSC for the count (n seats, k quotas) - checked per outcome by the verified checker.')
+              'Not proved (false): PSC for coalitions supported through shared ranks.')
